@@ -1,7 +1,7 @@
 CONSTANT MaxIn = 1
 CONSTANT MaxColl = 1
 CONSTANT MaxReq = 1
-CONSTANT MaxVW = 3
+CONSTANT MaxVW = 2
 CONSTANT MaxBW = 1
 INIT Init
 NEXT Next
